@@ -566,6 +566,20 @@ def extrema(ctx, o, core):
                 conds = facts.node_conditions(prog, f, n, ctx.typer, expand=False)
                 guarded = any((sched.is_emptiness(t, p) or (None, None))[1] is False and same(sched.is_emptiness(t, p)[0], seq) for t, p in conds)
                 refill = [d for d in defs if d.kind == 'assign' and _has_literal_element(d.value)]
+                only_grown = not any(isinstance(x, ast.Call) and isinstance(x.func, ast.Attribute) and isinstance(x.func.value, ast.Name)
+                                     and x.func.value.id == seq.id and x.func.attr in ('remove', 'pop', 'clear') for x in walk_no_nested(f.node))
+                cfgx = cfg_of(f)
+                uncond_app = [x for x in walk_no_nested(f.node) if isinstance(x, ast.Expr) and isinstance(x.value, ast.Call) and
+                              isinstance(x.value.func, ast.Attribute) and x.value.func.attr == 'append' and
+                              isinstance(x.value.func.value, ast.Name) and x.value.func.value.id == seq.id and
+                              cfgx.node_of(x) is not None and cn is not None and cfgx.dominates(cfgx.node_of(x), cn)]
+                if only_grown and uncond_app and all(d.kind == 'assign' for d in defs) and \
+                        all(cfgx.dominates(d.node, cfgx.node_of(uncond_app[0])) for d in defs if d.node is not None):
+                    o.site(f, n, f"{seq.id} receives an element unconditionally before the {n.func.id}()")
+                    continue
+                if defs and all(d.kind == 'assign' and _has_literal_element(d.value) for d in defs) and only_grown:
+                    o.site(f, n, f"{seq.id} starts with a literal element and is only grown")
+                    continue
                 if guarded or (refill and len(defs) >= 2 and _fallback_dominates(f, seq.id, cn)):
                     o.site(f, n, f"{seq.id} non-empty by emptiness test / fallback")
                     continue
@@ -614,7 +628,7 @@ def all_dated(ctx, o):
     for S in BOTH:
         ps = PassShape(ctx, S)
         f, cfg = ps.f, ps.cfg
-        first = f.body[0]
+        first = [s_ for s_ in f.body if not (isinstance(s_, ast.Expr) and isinstance(s_.value, ast.Constant))][0]
         shortcut = cfg.node_of(first.body[0]) if isinstance(first, ast.If) and first.body else None
         for attr in ('start', 'end', 'estimate', 'spent'):
             gen = set()
